@@ -165,11 +165,12 @@ def explore_resolver(fx, rn, havoc=False):
             return A.some(pv)
         if s2 == "Iterator::next" and args and A.mentions(args[0], lambda x: x[0] == "term" and T.short(x[1], 2) == "Pipeline::responses"):
             # `for resp in pipeline.responses()`: one symbolic response per iteration, as for find_map
-            if interp.choose(2, "next-response") == 1:
+            c = interp.choose(3, "next-response")
+            if c == 1:
                 interp.trace.append(("next", args[0], "None"))
                 return A.NONE
-            interp.trace.append(("next", args[0], "Some"))
-            return A.some(A.ok(("sym", "RESPONSE")))
+            interp.trace.append(("next", args[0], "Some" if c == 0 else "Some-failed"))
+            return A.some(A.ok(("sym", "RESPONSE"))) if c == 0 else A.some(A.err(("sym", "RESPONSE_ERR")))
         if s2 == "Pipeline::pop" and args:
             # `while let Some(response) = pipeline.pop()`: per iteration the pipeline is exhausted, or hands out one response — a good
             # one or a failed one (which collect_result may sink: C03's subject; here only what happens to the *other* responses)
@@ -306,10 +307,12 @@ def resolver_rules(chk, fx, ty, rn, paths):
                              holds=ok, key="C11/R2 Resolver<%s>::resolve responses-adaptor %s" % (ty, ",".join(bad) or ("rewritten" if not mp_ok else "no-responses")),
                              detail=None if ok else "an adaptor between responses() and collect_results drops, reorders or rewrites responses: members / prefixes are lost silently")
                 break
-    if any(e[0] == "next" and e[2] == "Some-failed" for p in paths for e in p.trace):
-        pop_form_rules(chk, fx, ty, rn)
+    looped = False
+    if ty in ("AsSet", "RouteSet", "AutNum") and any(e[0] == "next" and e[2] == "Some-failed" for p in paths for e in p.trace):
+        looped = pop_form_rules(chk, fx, ty, rn)
     if ty in ("AsSet", "RouteSet", "AutNum"):
-        chk.instance("C11/R2", "Resolver<%s> collects its responses with collect_results" % ty, rn, None, holds=n >= 1, key="C11/R2 Resolver<%s> no collect_results" % ty)
+        chk.instance("C11/R2", "Resolver<%s> collects its responses with collect_results%s" % (ty, " (or one by one in a loop that accumulates them)" if looped else ""), rn, None,
+                     holds=n >= 1 or looped, key="C11/R2 Resolver<%s> no collect_results" % ty)
 
 
 def pop_form_rules(chk, fx, ty, rn):
@@ -336,13 +339,14 @@ def pop_form_rules(chk, fx, ty, rn):
                          key="C11/R2 Resolver<%s>::resolve responses-adaptor stops-at-sunk-response" % ty,
                          detail=None if p.end == "iter-end" else "the loop ends (%s) at the first tolerated error: the responses still in the pipeline — the other address family — are never collected" % p.end)
         elif kind == "Some":
-            cr = p.calls("Evaluator::collect_results")
+            # what the response yields: collect_results over it, or (item by item) the response's own content
             ext = [c for c in p.calls("Vec::extend") + p.calls("Extend::extend") + p.calls("Vec::push") + p.calls("Vec::append") + p.calls("HashSet::extend") + p.calls("BTreeSet::extend")
-                   if len(c[2]) == 2 and c[2][0][0] == "sym" and c[2][0][1].startswith("loop:") and A.mentions(c[2][1], lambda x: x[0] == "term" and T.short(x[1], 2) == "Evaluator::collect_results")]
+                   + p.calls("HashSet::insert") + p.calls("BTreeSet::insert")
+                   if len(c[2]) == 2 and c[2][0][0] == "sym" and c[2][0][1].startswith("loop:") and A.mentions(c[2][1], lambda x: x == ("sym", "RESPONSE"))]
             if p.end == "iter-end":
                 n_ok += 1
                 chk.instance("C11/R2", "Resolver<%s>: what a good response yields is added to the collection carried round the loop" % ty, rn, loc_of(t.get("sp")),
-                             holds=bool(cr) and bool(ext), key="C11/R2 Resolver<%s>::resolve responses-adaptor result-not-accumulated" % ty)
+                             holds=bool(ext), key="C11/R2 Resolver<%s>::resolve responses-adaptor result-not-accumulated" % ty)
                 acc |= {c[2][0][1][5:] for c in ext}
     chk.floor("C11/R2 Resolver<%s> pop-loop paths with a good response" % ty, n_ok, 1)
     for p in paths:
@@ -351,6 +355,7 @@ def pop_form_rules(chk, fx, ty, rn):
             good = any(A.mentions(p.ret, lambda x, v=v: x == ("sym", "loop:" + v)) for v in acc)
             chk.instance("C11/R2", "Resolver<%s>: when the pipeline is exhausted the accumulated collection is the result (%s)" % (ty, A.vstr(p.ret)[:60]), rn,
                          loc_of(t.get("sp")), holds=good, key="C11/R2 Resolver<%s>::resolve responses-adaptor accumulated-result-not-returned" % ty)
+    return n_ok > 0
 
 
 def r4_recursive(chk, fx):
